@@ -208,7 +208,7 @@ impl<'a> ExprAST<'a> {
         for expr in params {
             ans.push(expr.exec(ctx)?);
         }
-        Ok(Value::List(ans))
+        Self::bounded(Value::List(ans))
     }
 
     fn exec_chain(&self, params: Vec<ExprAST>, ctx: &mut Context) -> Result<Value> {
@@ -224,7 +224,16 @@ impl<'a> ExprAST<'a> {
         for (k, v) in m {
             ans.push((k.exec(ctx)?, v.exec(ctx)?));
         }
-        Ok(Value::Map(ans))
+        Self::bounded(Value::Map(ans))
+    }
+
+    // A value built by a program is nested no deeper than a program itself may be. Without this, `a = [a]` repeated a few
+    // thousand times grows a value whose clone, comparison and drop (all recursive) exhaust the stack.
+    fn bounded(value: Value) -> Result<Value> {
+        if value.nested_beyond(MAX_DEPTH) {
+            return Err(Error::TooDeep);
+        }
+        Ok(value)
     }
 
     fn get_precidence(&self) -> (bool, (i32, i32)) {
